@@ -29,3 +29,4 @@ import LyModel.Props.C10Yin
 #print axioms LyModel.Props.C10Yin.printStmt_attr_child
 #print axioms LyModel.Props.C10Yin.yin_stmt_roundtrip_fails_noarg
 #print axioms LyModel.Props.C10Yin.yin_stmt_roundtrip_fails_prefixed_kw
+#print axioms LyModel.Props.C10Yin.yin_ext_roundtrip
